@@ -60,7 +60,7 @@ func init() {
 			"non-trivial = at least one kill happened; distinct_nontrivial = distinct (scenario, k1, k2) placements at which a kill actually happened",
 		Assumptions: append([]string{"a kill is modelled at decorated-call granularity: store writes, device Sets and topology writes are atomic with respect to the kill (the gap inside configuration.Update between the path-value commit and the entry update is not addressed)"}, s2Assumptions...),
 		DistinctSet: "crash_point", CaseTimeout: 300e9,
-		Floors:      map[string]int64{"crashes_injected": 300, "executions_reaching_final_state": 400},
+		Floors: map[string]int64{"crashes_injected": 300, "executions_reaching_final_state": 400},
 		Cases: func(tier string) int {
 			if tier == "thorough" {
 				return thoroughScenarios*thoroughK + 3000
